@@ -3,14 +3,13 @@
    oracles (inputs of the model); what is modelled is every length computation, allocation size and slice bound,
    with Go's run-time checks as explicit Panic outcomes. *)
 From ZV Require Import Prelude GoSem.
+From ZV.gen Require Pure.
 Open Scope Z_scope.
 
-(* readInt24(b) = uint32(b[2]) | uint32(b[1])<<8 | uint32(b[0])<<16, b[i] index-checked *)
+(* readInt24 is TRANSLATED from p2p/rlpx.go (go2coq, byte-slice leaves): Pure.readInt24 len_b b_2 b_1 b_0 with the
+   run-time index checks as guards; here it is applied to a byte list *)
 Definition readInt24 (b : list Z) : res Z :=
-  match b with
-  | b0 :: b1 :: b2 :: _ => Ok (Z.lor (Z.lor b2 (wrapU 32 (Z.shiftl b1 8))) (wrapU 32 (Z.shiftl b0 16)))
-  | _ => Panic
-  end.
+  Pure.readInt24 (Z.of_nat (length b)) (nth 2 b 0) (nth 1 b 0) (nth 0 b 0).
 
 (* rsize: frame size rounded up to a 16 byte boundary (uint32 arithmetic) *)
 Definition rsize (fsize : Z) : Z :=
